@@ -160,6 +160,12 @@ def copy_probes():
         ("struct/designated", "struct CP s = { a, 5 }; struct CO o = { .p = s, 7 }; return o.p.x;", ident),
         ("struct/designated-rest", "struct CP s = { a, 5 }; struct CO o = { .p = s, 7 }; return o.k * 100 + o.p.y * 10 + o.z;", const(57)),
         ("struct/array-elements", "struct CP s = { a, 5 }; struct CP r[3] = { s, { 1, 2 }, s }; return r[2].x;", ident),
+        ("complit/member", "return (struct CP){ a, 5 }.x;", ident),
+        ("complit/member-2", "return (struct CP){ a, 5 }.y;", const(5)),
+        ("complit/index", "return (long[]){ 1, a, 3 }[1];", ident),
+        ("complit/index-symbolic-tail", "return (long[]){ 1, 2, a }[2] + (long[]){ 7, 8 }[0];", lambda a: (a + 7, TRUE)),
+        ("complit/arrow", "return (&(struct CP){ a, 5 })->x;", ident),
+        ("complit/nested-union-member", "return (struct CW){ 1, { .l = a }, 3 }.u.l;", ident),
         ("struct/from-call", "struct CP s = { a, 5 }; struct CW w = { 2, cu_ret_%s(a), 9 }; return w.u.l;", ident),
     ]
     P = []
